@@ -18,7 +18,13 @@ recognised by its z3 term).
 import z3
 
 from pyvc import sym
-from pyvc.api import Contract
+from pyvc.api import Contract as _Contract
+
+
+def Contract(*a, **k):
+    # what is written to the output file is what C01 speaks about, too
+    k.setdefault('also', {'C07': ('C01', )})
+    return _Contract(*a, **k)
 from pyvc.interp import LoopSpec, ObjVal, PyRaise
 from pyvc.sym import SStr, mk_bool, cur
 from . import env as envmod
@@ -579,6 +585,17 @@ def setup_wp(eng):
         return g
 
     def b_all(e, it):
+        if isinstance(it, wl.AbsList) and len(it.parts) == 1 and isinstance(
+                it.parts[0], wl.Seg) and it.parts[0].cond is None and \
+                it.parts[0].wrap is not None:
+            # all(pred(child) for child in node.data)
+            sg = it.parts[0]
+            a = e.truth(sg.wrap(probe(e, 'leaf')))
+            b = e.truth(sg.wrap(probe(e, 'list')))
+            if not (a is True and b is False):
+                raise sym.Unsupported('all(pred(c) for c in children) with '
+                                      'a predicate other than is_leaf')
+            return cur().decide(ALLLEAF(sg.seq))
         if isinstance(it, AbsMapST):
             # the predicate must be "is a leaf": true on an arbitrary leaf,
             # false on an arbitrary list
